@@ -267,7 +267,7 @@ def check_hist(kind, src, h):
         if (L == ref) is not True or (ref == L) is not True:
             bad.append("equality")
         if bad:
-            culprit = "+".join(sorted(set(names[: step_no + 1])))
+            culprit = ("edit-input+" if any(n.startswith("edit-input") for n in names[: step_no + 1]) and not name.startswith("edit-input") else "") + name
             out.append((f"C19:object-history:{'+'.join(bad)}:after:{culprit}",
                         f"{kind} layout built from a caller-owned {src}; after {names[: step_no + 1]} it differs from a pristine layout of the "
                         f"same coordinates in {bad}: e.g. traps_dict {got['traps_dict'][:2]} vs {want['traps_dict'][:2]}"[:400]))
